@@ -3,7 +3,7 @@
 
 usage: PYTHONPATH=/verif /venv/bin/python tools/rule_table.py [--write]
 Without --write the tables are printed; with --write the text between the '## 4.' heading and the
-'### C08' heading of DESIGN.md is replaced.
+'Remarks on individual rules' line of DESIGN.md is replaced.
 """
 import importlib
 import json
@@ -14,7 +14,7 @@ sys.path.insert(0, "/verif")
 from sa.check import run_rules  # noqa: E402
 from sa.model import Repo  # noqa: E402
 
-PROPS = [f"C{i:02d}" for i in range(1, 21) if i != 8]
+PROPS = [f"C{i:02d}" for i in range(1, 21)]
 
 
 def main():
@@ -54,7 +54,7 @@ def main():
     path = "/verif/DESIGN.md"
     doc = open(path, encoding="utf-8").read()
     a = doc.index("## 4. Per-property rules")
-    b = doc.index("### C08")
+    b = doc.index("Remarks on individual rules")
     open(path, "w", encoding="utf-8").write(doc[:a] + text + "\n" + doc[b:])
     print(f"section 4 rewritten: {total_rules} rules, {total_inst} instances")
 
